@@ -239,7 +239,7 @@ func validateNonZero(v interface{}, name string) error {
 		if val.Int() != 0 {
 			return nil
 		}
-	case reflect.Uint, reflect.Uint8, reflect.Uint16, reflect.Uint32, reflect.Uint64:
+	case reflect.Uint, reflect.Uint8, reflect.Uint16, reflect.Uint32, reflect.Uint64, reflect.Uintptr:
 		if val.Uint() != 0 {
 			return nil
 		}
@@ -310,7 +310,7 @@ func validateMin(v interface{}, param string) error {
 		if val.Int() >= min {
 			return nil
 		}
-	case reflect.Uint, reflect.Uint8, reflect.Uint16, reflect.Uint32, reflect.Uint64:
+	case reflect.Uint, reflect.Uint8, reflect.Uint16, reflect.Uint32, reflect.Uint64, reflect.Uintptr:
 		min, err := strconv.ParseUint(param, 0, 64)
 		if err != nil {
 			return err
@@ -360,7 +360,7 @@ func validateMax(v interface{}, param string) error {
 		if val.Int() <= max {
 			return nil
 		}
-	case reflect.Uint, reflect.Uint8, reflect.Uint16, reflect.Uint32, reflect.Uint64:
+	case reflect.Uint, reflect.Uint8, reflect.Uint16, reflect.Uint32, reflect.Uint64, reflect.Uintptr:
 		max, err := strconv.ParseUint(param, 0, 64)
 		if err != nil {
 			return err
